@@ -332,7 +332,7 @@ func Harness_C16_LateReplyAfterCancel() {
 	done := make(chan struct{})
 	go func() {
 		defer close(done)
-		_, err = cl.Call(ctx, "proc", nil, wamp.List{1}, nil, nil)
+		_, err = cl.Call(ctx, "proc", nil, wamp.List{1}, nil, func(*wamp.Result) {})
 	}()
 	vQuiesce()
 	call, ok := vFindReq[*wamp.Call](rt)
@@ -345,8 +345,17 @@ func Harness_C16_LateReplyAfterCancel() {
 	vQuiesce()
 	_, okc := vFindReq[*wamp.Cancel](rt)
 	vAssert("cancel-sent", okc)
-	// the router does not answer within the response timeout
-	vAdvance(int64(700 * time.Millisecond))
+	// the router does not answer the CANCEL within the response timeout
+	if vBool("progressive-results-keep-coming-meanwhile") {
+		// (the callee is slow to react to its INTERRUPT)
+		for i := 0; i < 4; i++ {
+			vAdvance(int64(200 * time.Millisecond))
+			rt.send(&wamp.Result{Request: call.Request, Details: wamp.Dict{"progress": true}, Arguments: wamp.List{i}})
+			vQuiesce()
+		}
+	} else {
+		vAdvance(int64(700 * time.Millisecond))
+	}
 	vQuiesce()
 	select {
 	case <-done:
@@ -515,3 +524,65 @@ func vC16SubscribeChanOrder(budget int) {
 
 func Harness_C16_SubscribeChanOrder_1() { vC16SubscribeChanOrder(1) }
 func Harness_C16_SubscribeChanOrder_2() { vC16SubscribeChanOrder(2) }
+
+// a progressive call invocation of many chunks arriving while the handler is
+// still busy with the first one: every chunk reaches the same handler run, in
+// order, and the invocation is answered by exactly one YIELD
+func Harness_C16_ProgressiveInvocationBacklog() {
+	cl, rt := vNewClient(2 * time.Second)
+	n := []int{3, 20, 40}[vChoice("chunks", 3)]
+	gate := make(chan struct{})
+	started := make(chan struct{})
+	var seen []int64
+	err := cl.Register("p", func(ctx context.Context, inv *wamp.Invocation) InvokeResult {
+		k, _ := wamp.AsInt64(inv.Arguments[0])
+		seen = append(seen, k)
+		if k == 1 {
+			close(started)
+			<-gate
+		}
+		if prog, _ := inv.Details["progress"].(bool); prog {
+			return InvokeResult{Err: wamp.InternalProgressiveOmitResult}
+		}
+		return InvokeResult{Args: wamp.List{"done"}}
+	}, nil)
+	vAssert("registered", err == nil)
+	regID, _ := cl.RegistrationID("p")
+	rt.got = nil
+	sent := make(chan struct{})
+	go func() {
+		defer close(sent)
+		for k := 1; k <= n; k++ {
+			d := wamp.Dict{}
+			if k < n {
+				d["progress"] = true
+			}
+			rt.send(&wamp.Invocation{Request: 5, Registration: regID, Details: d, Arguments: wamp.List{int64(k)}})
+		}
+	}()
+	<-started
+	vQuiesce() // the backlog builds up behind the busy handler
+	close(gate)
+	<-sent
+	vQuiesce()
+	vAssert("every-chunk-handled", len(seen) == n)
+	for i, k := range seen {
+		vAssert("chunks-in-order", k == int64(i+1))
+	}
+	nYield, nErr := 0, 0
+	for _, m := range rt.got {
+		switch mm := m.(type) {
+		case *wamp.Yield:
+			if mm.Request == 5 {
+				nYield++
+			}
+		case *wamp.Error:
+			if mm.Type == wamp.INVOCATION {
+				nErr++
+			}
+		}
+	}
+	vAssert("answered-by-exactly-one-yield", nYield == 1 && nErr == 0)
+	vAssert("close-returns", cl.Close() == nil)
+	vCover("backlog-handled")
+}
